@@ -121,9 +121,12 @@ LIMITS = {"monthly": (25, 35), "bimonthly": (25, 70)}
 def billing_periods(read_dates, amounts, tz, regime):
     """Periods [read_i, read_{i+1}) of a billing calendar read at local midnight.
 
-    validity: 'valid' / 'offcycle' when counting calendar days and counting elapsed
-    24-hour days give the same verdict, else 'either' (only possible for a period
-    of exactly 25 / 35 / 70 calendar days that contains a DST change).
+    validity: 'valid' / 'offcycle' by the number of local CALENDAR days of the period (reads are
+    aligned to local midnight, so every period is a whole number of calendar days; a period of
+    exactly 25 / 35 / 70 days that contains a clock change is an hour short of / beyond that many
+    24-hour days and is still a 25 / 35 / 70-day period).  An earlier version returned 'either'
+    for such periods; that band hid a class of regressions (a 25-day bill across the spring
+    change dropped as off-cycle) and was closed.
     """
     lo, hi = LIMITS[regime]
     out = []
@@ -134,7 +137,7 @@ def billing_periods(read_dates, amounts, tz, regime):
         elapsed = Fraction(e - s, 1440)
         v_cal = lo <= ndays <= hi
         v_ela = lo <= elapsed <= hi
-        validity = ("valid" if v_cal else "offcycle") if v_cal == v_ela else "either"
+        validity = "valid" if v_cal else "offcycle"
         out.append({"i": i, "start_date": d0, "end_date": d1, "start": s, "end": e, "ndays": ndays,
                     "minutes": e - s, "amount": amounts[i], "validity": validity})
     return out
